@@ -454,6 +454,29 @@ def history_oracle(ctx, tles, fresh, nseq):
             descs = pair + descs[:8]
             if ctx.rng.random() < 0.5:
                 descs.insert(2, {"q": "orbit", "t": ["dt64", "us", us + 3600 * 10**6], "tbus": False, "as_float": True})
+        if si % 4 == 2:
+            # a query repeated with exactly ONE scalar argument changed, right after the original, on the same object:
+            # a result kept from the previous call under a key that leaves an argument out shows up here only
+            cand = [k for k, d0 in enumerate(descs) if d0["q"] in ("passes", "look", "position", "orbit", "crossing")]
+            if not cand:
+                descs.append(gen_call(ctx.rng, ep, ["passes"]))
+                cand = [len(descs) - 1]
+            k = ctx.rng.choice(cand)
+            d1 = dict(descs[k])
+            if d1["q"] == "passes":
+                f = ctx.rng.choice(["horizon", "horizon", "alt", "lon", "lat", "length"])
+                d1[f] = {"horizon": d1["horizon"] + 10, "alt": d1["alt"] + 1.5, "lon": -d1["lon"], "lat": -d1["lat"],
+                         "length": d1["length"] + 1}[f]
+            elif d1["q"] == "look" and d1["lon"][0] == "f":
+                f = ctx.rng.choice(["lon", "lat", "alt"])
+                d1[f] = ["f", {"lon": -d1["lon"][1], "lat": -d1["lat"][1], "alt": d1["alt"][1] + 1.0}[f]]
+            elif d1["q"] == "position":
+                d1["normalize"] = not d1["normalize"]
+            elif d1["q"] == "orbit":
+                d1["tbus"] = not d1["tbus"]
+            elif d1["q"] == "crossing":
+                d1["node"] = "descending" if d1["node"] == "ascending" else "ascending"
+            descs.insert(k + 1, d1)
         o = mk(tle)
         handed_out = []
         tle0, tab0 = tle_hash(o), tables_hash()
